@@ -96,6 +96,32 @@ func checkC14(c *Ctx) {
 	handlers := c.webHandlers()
 	r.Floor("C14/NIL/handlers", "web.Handler conversions in route tables", len(handlers), 1)
 
+	// a failed producer's nil result is never used: behind the handlers (the message manager)
+	// and in them, a use of the value of a (value, error) call on the side where the call may
+	// have failed panics, and net/http answers a panic by dropping the connection
+	r.Rule("C14/PANIC/nil-result", "in pkg/message, pkg/rest and pkg/webui every use of the value of a (value, error) call as a method receiver or field base — direct, deferred or through a helper — lies where the error is known nil")
+	{
+		var nfns []*ssa.Function
+		for _, rel := range []string{"pkg/message", "pkg/rest", "pkg/webui"} {
+			for _, fn := range pkgFuncs(p, rel) {
+				if !p.IsTestSupport(fn) {
+					nfns = append(nfns, fn)
+				}
+			}
+		}
+		sortFuncs(nfns)
+		nBad := 0
+		ordN := map[string]int{}
+		nProd := c.nilResultUses(nfns, func(use ssa.Instruction, producer *ssa.Call, what string) {
+			nBad++
+			r.Bad("C14/PANIC/nil-result", siteCons(p, use, ordN, "use"), p.InstrPos(use), "the result of %s (%s) is used where the call may have failed: %s, and on failure the result is nil — the handler panics and the client sees the connection dropped instead of a status", eng.CalleeName(producer.Common()), p.InstrPos(producer), what)
+		})
+		if nBad == 0 {
+			r.Ok("C14/PANIC/nil-result", "manager-and-handlers", "", "%d (value, error) producers in pkg/message, pkg/rest, pkg/webui; every receiver/field use of their value is on the err == nil side", nProd)
+		}
+		r.Floor("C14/PANIC/nil-result", "(value, error) producers in pkg/message, pkg/rest, pkg/webui", nProd, 3)
+	}
+
 	// producer summaries (for the evidence)
 	smT := p.Named("pkg/message", "StoreManager")
 	if smT != nil {
@@ -974,8 +1000,53 @@ func (c *Ctx) c14Routes() {
 		return
 	}
 	// does a handler decode req.Body / test a decoded bool field?
+	// what a registered handler runs synchronously in its own package: its static callees and the
+	// functions it reaches through function values (mailboxActionV1(f).handle → f)
+	runs := func(h *ssa.Function) []*ssa.Function {
+		seen := map[*ssa.Function]bool{}
+		var out []*ssa.Function
+		// walk with the arguments of the call that led into each function, so that a function
+		// value handed down as a parameter or receiver (mailboxActionV1(f).handle) is followed
+		// to the function it denotes here, not to every function the call site may run
+		var walk func(g *ssa.Function, args []ssa.Value, depth int)
+		walk = func(g *ssa.Function, args []ssa.Value, depth int) {
+			if g == nil || depth > 5 || len(g.Blocks) == 0 || eng.FuncPkgPath(g) != eng.FuncPkgPath(h) {
+				return
+			}
+			if !seen[g] {
+				seen[g] = true
+				out = append(out, g)
+			}
+			for _, u := range eng.WithAnons(g) {
+				eng.EachInstr(u, func(in ssa.Instruction) {
+					call, ok := in.(*ssa.Call)
+					if !ok || call.Call.IsInvoke() {
+						return
+					}
+					if t := eng.StaticCallee(call.Common()); t != nil {
+						if !seen[t] || len(call.Call.Args) > 0 {
+							walk(t, call.Call.Args, depth+1)
+						}
+						return
+					}
+					// through a parameter of g bound at the call that led here
+					if prm, isP := call.Call.Value.(*ssa.Parameter); isP && prm.Parent() == g {
+						if pi := eng.ParamIndex(prm); pi >= 0 && pi < len(args) {
+							if t, _, ok := eng.FuncValueOf(args[pi]); ok && t != nil {
+								walk(t, call.Call.Args, depth+1)
+							}
+						}
+					}
+				})
+			}
+		}
+		walk(h, nil, 0)
+		sortFuncs(out)
+		return out
+	}
 	bodyField := func(h *ssa.Function) (decodes bool, needs []string) {
-		for _, g := range eng.WithAnons(h) {
+		fns := runs(h)
+		for _, g := range fns {
 			eng.EachInstr(g, func(in ssa.Instruction) {
 				if fa, ok := in.(*ssa.FieldAddr); ok {
 					if f := eng.FieldOfAddr(fa); f != nil && f.Name() == "Body" && f.Pkg() != nil && f.Pkg().Path() == "net/http" {
@@ -988,17 +1059,19 @@ func (c *Ctx) c14Routes() {
 			return
 		}
 		// fields of the decoded struct tested by a branch
-		for _, b := range h.Blocks {
-			iff := eng.IfOf(b)
-			if iff == nil {
-				continue
-			}
-			v, _, ok := eng.CondTruth(b, 0)
-			if !ok {
-				continue
-			}
-			if f := eng.LoadedField(v); f != nil && f.Pkg() != nil && strings.HasSuffix(f.Pkg().Path(), "/rest/model") {
-				needs = append(needs, jsonName(f, p))
+		for _, g := range fns {
+			for _, b := range g.Blocks {
+				iff := eng.IfOf(b)
+				if iff == nil {
+					continue
+				}
+				v, _, ok := eng.CondTruth(b, 0)
+				if !ok {
+					continue
+				}
+				if f := eng.LoadedField(v); f != nil && f.Pkg() != nil && strings.HasSuffix(f.Pkg().Path(), "/rest/model") {
+					needs = append(needs, jsonName(f, p))
+				}
 			}
 		}
 		return
